@@ -1,4 +1,6 @@
 SPECIFICATION TSpec
+CONSTANTS
+  FunctionLoopFiltersModule = TRUE
 INVARIANT KeysAreContributors
 INVARIANT Once
 INVARIANT BasesFirst
